@@ -65,6 +65,27 @@ THEOREMS = [
     "SleapVerif.C04.read_history_independent",
     "SleapVerif.C04.chain_split",
     "SleapVerif.C04.reread_registered",
+    "SleapVerif.C04.augment_offset",
+    "SleapVerif.C04.augment_offset_bound_inframe",
+    "SleapVerif.C04.shape_factor",
+    "SleapVerif.C04.augment_registered_counterexample",
+    "SleapVerif.C04.run_snoc",
+    "SleapVerif.C04.run_append",
+    "SleapVerif.C04.offset_pad",
+    "SleapVerif.C04.offset_intensity",
+    "SleapVerif.C04.offset_crop",
+    "SleapVerif.C04.offset_recrop",
+    "SleapVerif.C04.offset_resize",
+    "SleapVerif.C04.offset_aug",
+    "SleapVerif.C04.size_after_pad",
+    "SleapVerif.C04.centroid_after_crop",
+    "SleapVerif.C04.centered_chain",
+    "SleapVerif.C04.base_chain",
+    "SleapVerif.C04.sm_rs_offset_bound",
+    "SleapVerif.C04.sizematch_option",
+    "SleapVerif.C04.sizematch_out_size_option",
+    "SleapVerif.C04.cropsize_empty",
+    "SleapVerif.C04.cropsize_empty_below_min",
 ]
 
 TOL_CONTENT = 0.15   # px: measured blob centroid vs model content map (observed ≤ 0.03 on the pinned tree)
@@ -75,7 +96,8 @@ BG = 16              # faint background (uint8) so that zero padding is distingu
 SLP = "tests/assets/minimal_instance.pkg.slp"
 
 torch = None  # set in main after import_repo
-STATS = {"blobs_measured": 0, "blob_outside_or_border": 0, "blobs_too_close": 0, "max_content_residual_px": 0.0, "max_registration_err_px": 0.0}
+OC_TABLE = {}  # crop side → Geometry.overcropSize (filled once per run from the driver)
+STATS = {"knife_blobs": 0, "knife_reads_size_compare_skipped": 0, "knife_size_cases": 0, "blobs_measured": 0, "blob_outside_or_border": 0, "blobs_too_close": 0, "max_content_residual_px": 0.0, "max_registration_err_px": 0.0}
 
 
 # =========================================================================== marker images
@@ -156,6 +178,7 @@ class Rec:
     """Recording wrapper around kornia's AugmentationSequential as used by
     sleap_nn.data.augmentation (shim in the harness, nothing in /repo)."""
     log: list = []
+    align = False   # RandomAffine(align_corners=…) of the last call: selects the model's `aug` / `auga`
 
     @classmethod
     def install(cls):
@@ -171,6 +194,8 @@ class Rec:
                 out = super().forward(*a, **k)
                 names = [type(m).__name__ for m in self.children()]
                 tm = self.transform_matrix
+                Rec.align = any(bool(getattr(m, "flags", {}).get("align_corners", False))
+                                for m in self.children() if type(m).__name__ == "RandomAffine")
                 Rec.log.append((names, None if tm is None else tm.detach().clone().double().numpy()))
                 return out
 
@@ -385,6 +410,7 @@ def compare_points(chk, c, what, img2d, model_pts, impl_kps, sigma_out, sigs_fn,
         r_win = min(3.0 * sigma_out + 1.0, dmin / 2 - 0.5)
         if r_win < 2.2 * sigma_out:
             STATS["blobs_too_close"] += 1
+            STATS["knife_blobs"] += 1
             chk.knife_edges += 1
             continue
         got = measure(img2d, (cx, cy), r_win)
@@ -409,28 +435,36 @@ def compare_points(chk, c, what, img2d, model_pts, impl_kps, sigma_out, sigs_fn,
             STATS["max_registration_err_px"] = max(STATS["max_registration_err_px"], round(err, 3))
         if abs(pred - ORACLE_PX) < KNIFE and d_model <= TOL_CONTENT:
             chk.knife_edges += 1
+            STATS["knife_blobs"] += 1
             continue
         if err >= ORACLE_PX:
-            sigs = sigs_fn(err)
+            sigs = sigs_fn((got[0] - ik[0], got[1] - ik[1]), (cx - mp["kp"][0], cy - mp["kp"][1]))
             chk.fail(f"C04 {what}: image content {err:.2f} px away from the returned keypoint",
                      {**c, "point": i}, {"measured": list(got), "keypoint": list(ik), "model_content": [cx, cy]}, sigs)
             ok = False
     return ok
 
 
-def signatures(f_total, inexact_sm, inexact_rs, post_scale=1.0, aug_scale=1.0):
-    """Structural predicates of a failing case (known-finding signatures) + the error the finding
-    explains; an error beyond that bound never gets a signature."""
-    bound = aug_scale * (abs(float(f_total) - 1) / 2 + (0.5 * max(post_scale, 1.0) if inexact_sm else 0.0)
-                         + (1.0 if inexact_rs else 0.0)) + 0.25
-
-    def fn(err):
+def signatures(f_total, inexact_x, inexact_y, mix_axes=False, warp=False):
+    """Known-finding signatures of an oracle failure.  A signature is granted only when the measured
+    offset IS the offset the finding explains: on the failing axis it must agree with the model's
+    predicted offset to 0.2 px (any other defect of similar size stays an ordinary violation), and
+      upscale_ge_3          total up-scaling factor ≥ 3;
+      target_size_rounding  the integer resize target of the FAILING axis is not n·factor
+                            (any axis when a rotation has mixed them);
+      affine_warp_nonsquare kornia warped the image with align_corners=False on a non-square frame
+                            or with a translation (image gets S·A·S⁻¹, keypoints A)."""
+    def fn(err_vec, pred_vec):
+        ax = 0 if abs(err_vec[0]) >= abs(err_vec[1]) else 1
+        if abs(err_vec[ax] - pred_vec[ax]) > 0.2:
+            return []
         s = []
-        if err <= bound:
-            if f_total >= 3:
-                s.append("upscale_ge_3")
-            if inexact_sm or inexact_rs:
-                s.append("target_size_rounding")
+        if f_total >= 3:
+            s.append("upscale_ge_3")
+        if (inexact_x or inexact_y) if mix_axes else (inexact_x, inexact_y)[ax]:
+            s.append("target_size_rounding")
+        if warp:
+            s.append("affine_warp_nonsquare")
         return s
     return fn
 
@@ -489,6 +523,7 @@ def judge_sm(chk, c, obs, outs):
     if applied and min(m1, m2) < Fraction(1, 10 ** 6) and (obs["th"], obs["tw"]) != (th, tw) \
             and abs(obs["th"] - th) <= 1 and abs(obs["tw"] - tw) <= 1:
         chk.knife_edges += 1   # exact tie n/d = k + ½ evaluated in doubles
+        STATS["knife_size_cases"] += 1
     elif (obs["th"], obs["tw"]) != (th, tw) or obs["th0"] != 0 or obs["tw0"] != 0:
         chk.disagree("apply_sizematcher resize target / pad location == model (content at top-left, pad bottom/right)",
                      c, [obs["th0"], obs["tw0"], obs["th"], obs["tw"]], [0, 0, th, tw])
@@ -504,7 +539,7 @@ def judge_sm(chk, c, obs, outs):
         return ok   # the code rounded the tie the other way: the model's content map is for the other target
     kps = [(x * obs["eff"], y * obs["eff"]) for x, y in c["pts"]]   # what every caller does with eff_scale
     ok &= compare_points(chk, c, "apply_sizematcher", obs["_img"], mc["pts"], kps, c["sigma"] * float(eff),
-                         signatures(eff, inexact, False), chk.hist)
+                         signatures(eff, (c["w"] * eff).denominator != 1, (c["h"] * eff).denominator != 1), chk.hist)
     return ok
 
 
@@ -535,6 +570,7 @@ def judge_rs(chk, c, obs, outs):
     if obs["shape"] != [mc["H"], mc["W"]]:
         if c.get("decimal") and (exact_h or exact_w):
             chk.knife_edges += 1   # n·s integral for a decimal s: int(n * s) in doubles may land either side
+            STATS["knife_size_cases"] += 1
             return True
         chk.disagree("apply_resizer output size == model (int(n·s))", c, obs["shape"], [mc["H"], mc["W"]])
         ok = False
@@ -543,7 +579,7 @@ def judge_rs(chk, c, obs, outs):
         chk.fail(f"C04 resizer: output {obs['shape']} is not ⌊size·scale⌋ = {want}", c, obs["shape"])
         ok = False
     ok &= compare_points(chk, c, "apply_resizer", obs["_img"], mc["pts"], [tuple(p) for p in obs["kps"]],
-                         c["sigma"] * float(s), signatures(s, False, not (exact_h and exact_w)), chk.hist)
+                         c["sigma"] * float(s), signatures(s, not exact_w, not exact_h), chk.hist)
     return ok
 
 
@@ -599,7 +635,9 @@ def exec_cropsize(c):
     with warnings.catch_warnings():
         warnings.simplefilter("ignore")
         r = call(find_instance_crop_size, labels, c["padding"], c["stride"], c["scaling"][0] / c["scaling"][1], c["min_crop"])
-    insts = [inst for fr in c["frames"] for inst in fr]
+    # sleap-io derives visibility from x alone: Instance.numpy() gives (NaN, NaN) for a point whose x
+    # is NaN and keeps (x, NaN) as it is — that is what find_instance_crop_size receives
+    insts = [[(None, None) if x is None else (x, y) for x, y in inst] for fr in c["frames"] for inst in fr]
     toks = ["cropsize", str(c["padding"]), str(c["stride"]), str(-1 if c["min_crop"] is None else c["min_crop"]),
             f"{c['scaling'][0]}/{c['scaling'][1]}", str(len(insts))]
     for inst in insts:
@@ -631,11 +669,15 @@ def judge_cropsize(chk, c, obs, outs):
         insts = [inst for fr in c["frames"] for inst in fr]
         for inst in insts:
             for ax in (0, 1):
-                v = [p[ax] * sc for p in inst if p[ax] is not None]
+                v = [p[ax] * sc for p in inst if p[0] is not None and p[ax] is not None]   # x NaN ⇒ point missing (sleap-io)
                 if v and max(v) - min(v) + c["padding"] > obs["size"] + 1e-6:
                     why = f"crop size {obs['size']} does not cover an instance of extent {max(v) - min(v)} + padding {c['padding']}"
+        # labels without any instance are outside C04's quantifier (assumption; Props `cropsize_empty`,
+        # `cropsize_empty_below_min`): the code then ignores min_crop_size — compared with the model only
         if insts and obs["size"] < mc:
             why = f"crop size {obs['size']} below the requested minimum {mc}"
+        if not insts:
+            STATS["cropsize_empty_labels"] = STATS.get("cropsize_empty_labels", 0) + 1
     if why:
         chk.fail("C04 crop size: " + why, c, obs)
         ok = False
@@ -658,10 +700,10 @@ def exec_aug(c):
         return [chain_line(c["h"], c["w"], [("int",)], c["pts"])], {"raise": r[1:]}
     o, k = r[1]
     mats = [m for names, m in Rec.log if m is not None and "RandomAffine" in names]
-    ops = [("int",)] if c["mode"] == "int" or not mats else [("aug", *[fr_s(v) for v in aff_of(mats[-1])])]
+    ops = [("int",)] if c["mode"] == "int" or not mats else [("auga" if Rec.align else "aug", *[fr_s(v) for v in aff_of(mats[-1])])]
     obs = {"shape": list(o.shape[-2:]), "kps": t2l(k), "bit_identical": bool(torch.equal(torch.nan_to_num(k, nan=-7.0), torch.nan_to_num(inst, nan=-7.0))),
            "nan_pattern_same": bool(torch.equal(torch.isnan(k), torch.isnan(inst))),
-           "calls": len(Rec.log), "det": smax(mats[-1]) ** 2 if mats else 1.0,
+           "calls": len(Rec.log), "det": smax(mats[-1]) ** 2 if mats else 1.0, "align": Rec.align, "affine": bool(mats),
            "_img": o[0].mean(0).numpy()}
     return [chain_line(c["h"], c["w"], ops, c["pts"])], obs
 
@@ -701,9 +743,119 @@ def judge_aug(chk, c, obs, outs):
     sc = math.sqrt(obs["det"])
     noisy = c["mode"] == "int"
     ok &= compare_points(chk, c, "apply_%s_augmentation" % ("intensity" if noisy else "geometric"), obs["_img"],
-                         mc["pts"], kps, c["sigma"] * sc, signatures(Fraction(1), False, False, aug_scale=sc), chk.hist,
+                         mc["pts"], kps, c["sigma"] * sc, signatures(Fraction(1), False, False, warp=(c["mode"] == "geo" and not obs.get("align") and obs["affine"])), chk.hist,
                          skip_measure=erase)
     return ok
+
+
+# ---- legacy IterDataPipes of the anchored files (Resizer → PadToStride → InstanceCropper, KorniaAugmenter) ----
+def exec_pipe(c):
+    from sleap_nn.data.resizing import Resizer, PadToStride
+    from sleap_nn.data.instance_cropping import InstanceCropper
+    from sleap_nn.data.augmentation import KorniaAugmenter
+    arr = make_marker(c["h"], c["w"], [p for inst in c["insts"] for p in inst], c["sigma"], c["c"])
+    inst = torch.tensor([[list(p) for p in i] for i in c["insts"]], dtype=torch.float32)[None]   # (1, n, nodes, 2)
+    ex = {"image": to_float_img(arr), "instances": inst, "num_instances": len(c["insts"])}
+    sn, sd = c["scale"]
+    Rec.log.clear()
+    torch.manual_seed(c["seed"])
+
+    def build():
+        dp = PadToStride(Resizer([ex], scale=sn / sd), max_stride=c["stride"])
+        if c["geo"]:
+            dp = KorniaAugmenter(dp, affine_p=1.0, **c["geo"])
+        if c["crop"]:
+            from sleap_nn.data.instance_centroids import InstanceCentroidFinder
+            dp = InstanceCropper(InstanceCentroidFinder(dp, anchor_ind=0), tuple(c["crop"]))
+        out = []
+        for e in dp:
+            out.append({k: (v.clone() if hasattr(v, "clone") else v) for k, v in e.items()})
+        return out
+    r = call(build)
+    if r[0] != "ok":
+        return [], {"raise": r[1:]}
+    mats = [m for names, m in Rec.log if m is not None and "RandomAffine" in names]
+    base = [("rs", sn, sd), ("pad", c["stride"])]
+    if c["geo"] and mats:
+        base.append(("auga" if Rec.align else "aug", *[fr_s(v) for v in aff_of(mats[-1])]))
+    lines, items = [], []
+    allp = [p for i in c["insts"] for p in i]
+    for j, e in enumerate(r[1]):
+        if c["crop"]:
+            # the cropper centres on the (resized, augmented) centroid = keypoint image of node 0 of instance j
+            lines.append(chain_line(c["h"], c["w"], base, [c["insts"][j][0]]))      # where that centroid is
+            items.append({"img": e["instance_image"][0].mean(0).numpy(), "kps": t2l(e["instance"]), "j": j,
+                          "centroid": t2l(e["centroid"])[0], "shape": list(e["instance_image"].shape[-2:])})
+        else:
+            lines.append(chain_line(c["h"], c["w"], base, allp))
+            items.append({"img": e["image"][0].mean(0).numpy(), "kps": t2l(e["instances"]), "j": None,
+                          "shape": list(e["image"].shape[-2:])})
+    return lines, {"items": items, "det": smax(mats[-1]) ** 2 if mats else 1.0, "align": Rec.align, "affine": bool(mats)}
+
+
+def judge_pipe(chk, c, obs, outs):
+    if "raise" in obs:
+        chk.disagree("legacy datapipes raised where the model does not", c, obs["raise"], "ok")
+        return False
+    ok = True
+    s = Fraction(*c["scale"])
+    sc = math.sqrt(obs["det"])
+    sigs = signatures(s, (c["w"] * s).denominator != 1, (c["h"] * s).denominator != 1, mix_axes=obs["affine"],
+                      warp=obs["affine"] and not obs["align"])
+    for it, out in zip(obs["items"], outs):
+        mc = parse_chain(out)
+        if it["j"] is None:
+            if it["shape"] != [mc["H"], mc["W"]]:
+                chk.disagree("Resizer → PadToStride output size == model", c, it["shape"], [mc["H"], mc["W"]])
+                ok = False
+            ok &= compare_points(chk, c, "legacy Resizer/PadToStride/KorniaAugmenter", it["img"], mc["pts"],
+                                 [tuple(p) for p in it["kps"]], c["sigma"] * float(s) * sc, sigs, chk.hist)
+        else:
+            # crop about the centroid: content and keypoints minus the same top-left (oracle on the crop itself)
+            bh, bw = c["crop"]
+            if it["shape"] != [bh, bw]:
+                chk.fail(f"C04 InstanceCropper: crop {it['shape']} is not the requested {[bh, bw]}", c, it["shape"])
+                ok = False
+            cen = mc["pts"][0]["kp"]
+            tl = (cen[0] - bw / 2 + 0.5, cen[1] - bh / 2 + 0.5)
+            if not (close(it["centroid"][0], (bw - 1) / 2) and close(it["centroid"][1], (bh - 1) / 2)):
+                chk.fail(f"C04 InstanceCropper: centroid {it['centroid']} not at the crop centre", c, it["centroid"])
+                ok = False
+            want = (mc["pts"][0]["kp"][0] - tl[0], mc["pts"][0]["kp"][1] - tl[1])
+            if not (close(it["kps"][0][0], want[0]) and close(it["kps"][0][1], want[1])):
+                chk.disagree("InstanceCropper keypoints == model (minus the bbox top-left)", c, it["kps"][0], list(want))
+                ok = False
+            pts = [{"content": (mc["pts"][0]["content"][0] - tl[0], mc["pts"][0]["content"][1] - tl[1]), "kp": want}]
+            m = 3.0 * c["sigma"] * float(s) * sc + 1.5      # blob must be whole in the frame the crop is taken from
+            qx, qy = mc["pts"][0]["content"]
+            whole = m <= qx <= mc["W"] - 1 - m and m <= qy <= mc["H"] - 1 - m
+            ok &= compare_points(chk, c, "legacy InstanceCropper", it["img"], pts, [tuple(it["kps"][0])],
+                                 c["sigma"] * float(s) * sc, sigs, chk.hist, skip_measure=not whole)
+    return ok
+
+
+def gen_pipe(rng):
+    for _ in range(30):
+        h, w = rng.randrange(64, 140), rng.randrange(64, 140)
+        sc = rng.choice([(1, 1), (1, 2), (3, 4), (5, 4), (3, 2)])
+        if rng.random() < 0.7:
+            h, w = h - h % sc[1], w - w % sc[1]
+        elif sc[0] < sc[1]:
+            continue
+        s = Fraction(*sc)
+        sigma = pick_sigma(s)
+        pts = gen_points(rng, h, w, 2 * rng.choice([1, 2]), sigma, margin_sig=4)
+        if len(pts) < 2:
+            continue
+        insts = [[pts[2 * i], pts[2 * i + 1]] for i in range(len(pts) // 2)]
+        geo = None
+        if rng.random() < 0.4:
+            geo = {"rotation": rng.choice([0.0, 15.0, 45.0]), "scale": rng.choice([None, (0.9, 1.1)]),
+                   "translate_width": rng.choice([0.0, 0.05]), "translate_height": rng.choice([0.0, 0.05])}
+        return {"kind": "pipe", "h": h, "w": w, "c": rng.choice([1, 3]), "sigma": sigma, "insts": insts, "scale": list(sc),
+                "stride": rng.choice([1, 8, 16]), "crop": rng.choice([None, [32, 32], [24, 40]]), "geo": geo,
+                "seed": rng.randrange(2 ** 31)}
+    return None
 
 
 # ---- the four Dataset classes ---------------------------------------------------
@@ -718,7 +870,7 @@ def ds_config(c):
     cfg = c.get("cfg_max_hw") or [None, None]
     if c.get("cfg_max_hw") is not None:     # keys present (possibly None) — what a config file gives
         pre["max_height"], pre["max_width"] = cfg[0], cfg[1]
-    dc = OmegaConf.create({"user_instances_only": True, "preprocessing": pre,
+    dc = OmegaConf.create({"user_instances_only": not c.get("all_instances", False), "preprocessing": pre,
                            "augmentation_config": augc if augc else None})
     hc = OmegaConf.create({"sigma": 1.5, "output_stride": 2, "anchor_part": c.get("anchor")})
     pc = OmegaConf.create({"sigma": 4, "output_stride": 4})
@@ -771,6 +923,18 @@ def _exec_ds(c, cd, labels, dc, hc, pc, kw):
     if r[0] != "ok":
         return [], {"raise": r[1:]}
     ds = r[1]
+    if c.get("np_chunks") and c.get("existing"):
+        # a second dataset object that only reads the chunks the first one wrote
+        kw2 = dict(kw, use_existing_chunks=True)
+        r = call(lambda: {"BottomUp": lambda: cd.BottomUpDataset(labels, dc, hc, pc, **kw2),
+                          "Single": lambda: cd.SingleInstanceDataset(labels, dc, hc, **kw2),
+                          "Centroid": lambda: cd.CentroidDataset(labels, dc, hc, **kw2),
+                          "Centered": lambda: cd.CenteredInstanceDataset(labels, dc, tuple(c["crop_hw"]), hc, **kw2)}[cls]())
+        if r[0] != "ok":
+            return [], {"raise": r[1:]}
+        cache_of, ds = ds, r[1]
+    else:
+        cache_of = ds
     lines, items = [], []
     # sample index → (frame, instance) in the order the class enumerates
     if cls == "Centered":
@@ -795,10 +959,10 @@ def _exec_ds(c, cd, labels, dc, hc, pc, kw):
         s = g[1]
         img = s[img_key]
         if c.get("np_chunks"):
-            z = np.load(ds.cache[idx])
+            z = np.load(cache_of.cache[idx])
             pre_shape = list(z[img_key].shape[:2])
         else:
-            pre_shape = list(ds.cache[idx][img_key].shape[-2:])
+            pre_shape = list(cache_of.cache[idx][img_key].shape[-2:])
         mats = [m for names, m in Rec.log if m is not None and "RandomAffine" in names]
         ops = []
         if mhw[0] is not None or mhw[1] is not None:
@@ -809,7 +973,7 @@ def _exec_ds(c, cd, labels, dc, hc, pc, kw):
             inst = fr["insts"][ii]
             a = c.get("anchor")
             c0 = inst[a] if a is not None and inst[a][0] is not None else bbox_mid(inst)
-            oc = [int(v) for v in (np.array(c["crop_hw"]) * np.sqrt(2)).astype(np.int32).tolist()]
+            oc = [OC_TABLE[v] for v in c["crop_hw"]]     # the MODEL's ⌊c·√2⌋ (driver `oc`), compared below with the cached crop
             ops.append(("crop", fr_s(c0[0]), fr_s(c0[1]), oc[0], oc[1]))
             pts = [p for p in inst]
             kp_t = s["instance"]
@@ -827,7 +991,7 @@ def _exec_ds(c, cd, labels, dc, hc, pc, kw):
             ops.append(("int",))
         if c.get("geometric"):
             if mats:
-                ops.append(("aug", *[fr_s(v) for v in aff_of(mats[-1])]))
+                ops.append(("auga" if Rec.align else "aug", *[fr_s(v) for v in aff_of(mats[-1])]))
             else:
                 ops.append(("int",))
         if cls == "Centered":
@@ -850,10 +1014,31 @@ def _exec_ds(c, cd, labels, dc, hc, pc, kw):
                       "n_vis": len(vis), "same_as_first": same,
                       "centroid": t2l(s["centroid"])[0] if cls == "Centered" else None,
                       "bbox": t2l(s["instance_bbox"]) if cls == "Centered" else None,
-                      "det": smax(mats[-1]) ** 2 if mats else 1.0,
+                      "det": smax(mats[-1]) ** 2 if mats else 1.0, "affine": bool(mats), "align": Rec.align,
                       "orig_size": [float(v) for v in s["orig_size"].flatten().tolist()],
-                      "fi": fi, "ii": ii, "read": k, "idx": idx, "_img": img[0].mean(0).numpy()})
+                      "stale": stale_keys(c, cls, s), "fi": fi, "ii": ii, "read": k, "idx": idx,
+                      "_img": img[0].mean(0).numpy()})
+    if cls == "Centered":
+        # bbox of the re-crop: make_centered_bboxes about the over-crop centre, in over-crop coordinates
+        oc = [OC_TABLE[v] for v in c["crop_hw"]]
+        lines.append(f"bbox {fr_s(Fraction(oc[1] - 1, 2))} {fr_s(Fraction(oc[0] - 1, 2))} {c['crop_hw'][0]} {c['crop_hw'][1]}")
     return lines, {"items": items}
+
+
+def stale_keys(c, cls, s):
+    """Model-free consistency of the keys of one sample: the centroid must still be the anchor keypoint
+    it was computed from (both are keypoints of the same image).  Returns the largest distance in px."""
+    a = c.get("anchor")
+    if a is None:
+        return None
+    if cls == "Centroid":
+        d = (s["centroids"][0, :, :] - s["instances"][0, :s["centroids"].shape[1], a, :]).abs()
+    elif cls == "Centered":
+        d = (s["centroid"][0] - s["instance"][0, a]).abs()
+    else:
+        return None
+    d = d[~torch.isnan(d)]
+    return float(d.max()) if d.numel() else None
 
 
 def judge_ds(chk, c, obs, outs):
@@ -866,6 +1051,10 @@ def judge_ds(chk, c, obs, outs):
     geo = bool(c.get("geometric"))
     noisy = bool(c.get("intensity"))
     mhw = eff_hw(c)
+    model_bbox = None
+    if c["cls"] == "Centered":
+        bb = [float(unrat(x)) for x in outs[-1].split()[1:]]
+        model_bbox = [[bb[0], bb[1]], [bb[2], bb[3]], [bb[4], bb[5]], [bb[6], bb[7]]]
     for it, out in zip(obs["items"], outs):
         if "raise" in it:
             chk.disagree(f"{c['cls']}Dataset.__getitem__ raised where the model does not",
@@ -881,6 +1070,13 @@ def judge_ds(chk, c, obs, outs):
             chk.fail(f"C04 {c['cls']}Dataset: read #{it['read']} of index {it['idx']} (history {sub['reads']}) differs from its first read "
                      "although augmentation is off", sub, {"keypoints_now": it["kps"], "centroid_now": it["centroid"]})
             ok = False
+        if it["stale"] is not None and it["stale"] >= ORACLE_PX:
+            # signature: the sample went through a geometric augmentation (only then can a key that is
+            # not handed to the augmenter fall behind); without one this is an ordinary violation
+            chk.fail(f"C04 {c['cls']}Dataset: the centroid is {it['stale']:.1f} px away from the anchor keypoint it was computed from "
+                     "(a key of the sample was not transformed with the image)", sub, {"kps": it["kps"], "centroid": it["centroid"]},
+                     ["unaugmented_key"] if it["affine"] else [])
+            ok = False
         mc = parse_chain(out)
         if mc is None:
             chk.disagree("driver rejected the chain", sub, None, out)
@@ -889,17 +1085,21 @@ def judge_ds(chk, c, obs, outs):
         applied, eff, inexact_sm = sm_facts(fr["h"], fr["w"], mhw[0], mhw[1])
         h1 = mhw[0] if (applied and mhw[0]) else fr["h"]
         w1 = mhw[1] if (applied and mhw[1]) else fr["w"]
-        if c.get("decimal") and ((h1 * s).denominator == 1 or (w1 * s).denominator == 1):
-            chk.knife_edges += 1   # n·s integral for a decimal s: int(n * s) in doubles may land either side
-            continue
-        if sm_tie(fr["h"], fr["w"], mhw[0], mhw[1]):
-            chk.knife_edges += 1   # round() tie in the size matcher
-            continue
+        # knife-edges of the SIZE arithmetic (n·s integral for a decimal s: int(n * s) in doubles may land
+        # either side; round() tie in the size matcher): only the size and content comparisons are
+        # skipped — keypoints, NaN pattern, model-free size oracles and the re-read oracle still run
+        size_knife = bool(c.get("decimal") and ((h1 * s).denominator == 1 or (w1 * s).denominator == 1)) \
+            or sm_tie(fr["h"], fr["w"], mhw[0], mhw[1])
+        if size_knife:
+            chk.knife_edges += 1
+            STATS["knife_reads_size_compare_skipped"] += 1
         # exact sizes
-        if it["shape"] != [mc["H"], mc["W"]]:
+        if size_knife:
+            pass
+        elif it["shape"] != [mc["H"], mc["W"]]:
             chk.disagree(f"{c['cls']}Dataset output image size == model", sub, it["shape"], [mc["H"], mc["W"]])
             ok = False
-        if it["pre_shape"] != list(mc["sizes"][it["n_pre"] - 1]):
+        if not size_knife and it["pre_shape"] != list(mc["sizes"][it["n_pre"] - 1]):
             chk.disagree(f"{c['cls']}Dataset cached (pre-augmentation) image size == model", sub, it["pre_shape"],
                          list(mc["sizes"][it["n_pre"] - 1]))
             ok = False
@@ -922,6 +1122,10 @@ def judge_ds(chk, c, obs, outs):
             if not (close(it["centroid"][0], want_c[0]) and close(it["centroid"][1], want_c[1])):
                 chk.fail(f"C04 CenteredInstanceDataset: centroid {it['centroid']} not at the crop centre {want_c}", sub, it["centroid"])
                 ok = False
+            if not all(close(a, b) for pa, pb in zip(it["bbox"], model_bbox) for a, b in zip(pa, pb)):
+                chk.disagree("CenteredInstanceDataset instance_bbox == Geometry.centeredBBox about the over-crop centre",
+                             sub, it["bbox"], model_bbox)
+                ok = False
             if mc["centroid"] is None or not (close(it["centroid"][0], mc["centroid"][0]) and close(it["centroid"][1], mc["centroid"][1])):
                 chk.disagree("CenteredInstanceDataset centroid == model", sub, it["centroid"], mc["centroid"])
                 ok = False
@@ -943,7 +1147,7 @@ def judge_ds(chk, c, obs, outs):
             if not miss:
                 vis_kps.append(tuple(kp))
         # pad location: bottom/right strips all-zero (no augmentation ⇒ nothing else writes there)
-        if not geo and not noisy:
+        if not geo and not noisy and not size_knife:
             ph, pw = mc["sizes"][-2] if c["cls"] == "Centered" else mc["sizes"][it["n_pre"] - 2]
             g = it["_img"]
             if g[ph:, :].any() or g[:, pw:].any():
@@ -953,11 +1157,13 @@ def judge_ds(chk, c, obs, outs):
                     and not (g[:ph, :pw].max(axis=1) > 0).all():
                 chk.fail(f"C04 {c['cls']}Dataset: zero rows inside the content area (padding not at the bottom/right)", sub, [ph, pw])
                 ok = False
-        inexact_rs = (h1 * s).denominator != 1 or (w1 * s).denominator != 1
+        inexact_x = (applied and (fr["w"] * eff).denominator != 1) or (w1 * s).denominator != 1
+        inexact_y = (applied and (fr["h"] * eff).denominator != 1) or (h1 * s).denominator != 1
         f_total = eff * s
         sc = math.sqrt(it["det"])
         # no blob to measure when the content was (partly) erased or the centroid is a bbox midpoint
-        no_blob = bool(geo and c["geometric"].get("erase_p", 0) > 0) or (c["cls"] == "Centroid" and c.get("anchor") is None)
+        no_blob = bool(geo and c["geometric"].get("erase_p", 0) > 0) or (c["cls"] == "Centroid" and c.get("anchor") is None) \
+            or size_knife
         if c["cls"] == "Centered" and it["read"] == c["reads"].index(it["idx"]):
             a_ = c.get("anchor")
             inst_ = fr["insts"][it["ii"]]
@@ -967,7 +1173,8 @@ def judge_ds(chk, c, obs, outs):
                 STATS["border_hugging_centroids"] = STATS.get("border_hugging_centroids", 0) + 1
         ok &= compare_points(chk, sub, f"{c['cls']}Dataset", it["_img"], mc["pts"][:it["n_vis"]], vis_kps,
                              fr["sigma"] * float(f_total) * sc,
-                             signatures(f_total, inexact_sm, inexact_rs, post_scale=float(s), aug_scale=max(sc, 1.0)), chk.hist,
+                             signatures(f_total, inexact_x, inexact_y, mix_axes=it["affine"],
+                                        warp=it["affine"] and not it["align"]), chk.hist,
                              skip_measure=no_blob, area=tuple(mc["sizes"][-2]) if c["cls"] == "Centered" else None,
                              neighbours=[q["content"] for q in mc["pts"][it["n_vis"]:]])
     return ok
@@ -1073,8 +1280,10 @@ def gen_crop(rng):
     mode = rng.random()
     if mode < 0.6:
         cen = pts[0]
-    elif mode < 0.8:   # near / beyond a border
+    elif mode < 0.7:   # on / near a border
         cen = (rng.choice([0, 1.5, w - 1, w - 2.25]), rng.choice([0, 2.5, h - 1, h - 3.75]))
+    elif mode < 0.8:   # outside the frame
+        cen = (rng.choice([-5.5, -0.75, w + 3.25, w - 0.5, pts[0][0]]), rng.choice([-4.25, h + 6.5, h, pts[0][1]]))
     else:
         cen = (rng.randrange(0, 16 * w) / 16, rng.randrange(0, 16 * h) / 16)
     return {"kind": "crop", "h": h, "w": w, "pts": pts, "sigma": sigma, "centroid": list(cen), "bh": bh, "bw": bw,
@@ -1083,20 +1292,21 @@ def gen_crop(rng):
 
 def gen_cropsize(rng):
     frames = []
+    empty = rng.random() < 0.12          # labels without any instance (only empty frames)
     for _ in range(rng.randrange(1, 4)):
         fr = []
-        for _ in range(rng.randrange(1, 4)):
+        for _ in range(0 if empty else rng.choice([0, 1, 1, 2, 3])):
             inst = []
             for _ in range(2):
                 r = rng.random()
                 x, y = rng.randrange(0, 16 * 200) / 16, rng.randrange(0, 16 * 200) / 16
                 if r < 0.12:
                     inst.append((None, None))
+                elif r < 0.18:
+                    inst.append((None, y) if rng.random() < 0.5 else (x, None))   # half-NaN point
                 else:
                     inst.append((x, y))
-            if all(p[0] is None for p in inst):
-                inst[0] = (rng.randrange(0, 100) / 4, rng.randrange(0, 100) / 4)
-            fr.append(inst)
+            fr.append(inst)              # all-NaN instances are kept (the code sees extent 0)
         frames.append(fr)
     stride = rng.choice([1, 2, 4, 8, 16, 32, 6])
     return {"kind": "cropsize", "frames": frames, "padding": rng.choice([0, 0, 5, 16, 33]), "stride": stride,
@@ -1115,9 +1325,9 @@ INT_PARAMS = [
 
 
 def gen_geo_params(rng, mild=False):
-    p = {"rotation": rng.choice([0.0, 15.0, 15.0, 45.0, 90.0, 180.0] if not mild else [0.0, 15.0, 30.0]),
-         "scale": rng.choice([None, [0.9, 1.1], [0.75, 1.3], [0.8, 0.8, 1.2, 1.2]] if not mild else [None, [0.9, 1.1]]),
-         "translate_width": rng.choice([0.0, 0.02, 0.1]), "translate_height": rng.choice([0.0, 0.02, 0.1]),
+    p = {"rotation": rng.choice([0.0, 15.0, 15.0, 45.0, 90.0, 180.0, 180.0] if not mild else [0.0, 15.0, 30.0]),
+         "scale": rng.choice([None, [0.9, 1.1], [0.75, 1.3], [0.8, 0.8, 1.2, 1.2], [0.7, 1.5]] if not mild else [None, [0.9, 1.1]]),
+         "translate_width": rng.choice([0.0, 0.02, 0.1, 0.2]), "translate_height": rng.choice([0.0, 0.02, 0.1, 0.2]),
          "affine_p": 1.0}
     r = rng.random()
     if r < 0.1:
@@ -1125,12 +1335,20 @@ def gen_geo_params(rng, mild=False):
     elif r < 0.2:
         p["erase_p"] = 1.0
         p["erase_scale_min"], p["erase_scale_max"] = 0.001, 0.02
+    elif r < 0.27:
+        p["mixup_p"] = 1.0               # batch of one: RandomMixUpV2 mixes the image with itself
+        p["mixup_lambda"] = [0.2, 0.4]
     return p
+
+
+ELONGATED = [(48, 480), (40, 200), (32, 256), (300, 60), (64, 640), (480, 48), (56, 336)]
 
 
 def gen_aug(rng, mode):
     h, w = rng.choice([(64, 64), (96, 96), (rng.randrange(64, 160), rng.randrange(64, 160)), (80, 200), (128, 128)])
-    sigma = 2.2 if mode == "geo" else 1.8
+    if mode == "geo" and rng.random() < 0.35:
+        h, w = rng.choice(ELONGATED)     # aspect up to 1:10 (kornia's warp is S·A·S⁻¹ there)
+    sigma = (2.2 if min(h, w) >= 56 else 1.7) if mode == "geo" else 1.8
     pts = gen_points(rng, h, w, rng.randrange(1, 4) if mode == "int" else rng.choice([1, 2, 3, 4, 5, 6]), sigma, margin_sig=4)
     if not pts:
         return None
@@ -1145,6 +1363,8 @@ def gen_ds(rng, cls, region="main"):
         decimal = False
         sc = rng.choice(DYADIC)
         sizes = [(rng.randrange(48, 150), rng.randrange(48, 150)) for _ in range(nfr)]
+        if region == "main" and rng.random() < 0.12:
+            sizes = [rng.choice(ELONGATED)]                          # aspect up to 1:10
         mode = rng.random()
         if region == "ge3":
             sizes = [(rng.randrange(24, 40), rng.randrange(24, 40)) for _ in range(nfr)]
@@ -1193,7 +1413,7 @@ def gen_ds(rng, cls, region="main"):
             sigma = pick_sigma(f_total)
             n_inst = rng.choice([1, 1, 2, 3])
             first = None
-            if cls == "Centered" and rng.random() < 0.5:
+            if cls == "Centered" and rng.random() < 0.5 and min(h, w) - 1 - 7 * sigma > 2:
                 # border-hugging anchor: 3σ … 3σ+3 px from one border (or two: a corner)
                 d = lambda: int(16 * (3 * sigma + rng.random() * 3)) / 16
                 fx = rng.choice([d(), w - 1 - d(), rng.randrange(int(16 * 3.5 * sigma), int(16 * (w - 1 - 3.5 * sigma))) / 16])
@@ -1234,6 +1454,8 @@ def gen_ds(rng, cls, region="main"):
         elif rng.random() < 0.1:
             c["cfg_max_hw"] = [None, None]
         c["np_chunks"] = rng.random() < 0.25
+        c["existing"] = c["np_chunks"] and rng.random() < 0.4      # read through use_existing_chunks=True
+        c["all_instances"] = rng.random() < 0.15                    # user_instances_only=False
         # read history: every index at least once, repeats (immediate and interleaved)
         n = sum(len(fr["insts"]) for fr in frames) if cls == "Centered" else len(frames)
         reads = list(range(n))
@@ -1248,7 +1470,7 @@ def gen_ds(rng, cls, region="main"):
         if r < 0.25:
             c["intensity"] = dict(rng.choice(INT_PARAMS))
         elif r < 0.55 and region == "main":
-            c["geometric"] = gen_geo_params(rng, mild=True)
+            c["geometric"] = gen_geo_params(rng, mild=rng.random() < 0.6)
         elif r < 0.65 and region == "main":
             c["intensity"] = dict(rng.choice(INT_PARAMS))
             c["geometric"] = gen_geo_params(rng, mild=True)
@@ -1259,11 +1481,21 @@ def gen_ds(rng, cls, region="main"):
 # =========================================================================== known findings (witness replays)
 KNOWN_WITNESSES = {
     "F-C04": {"kind": "sm", "h": 16, "w": 16, "mh": 64, "mw": 64, "pts": [(5.0, 9.0)], "sigma": 1.6, "c": 1, "region": "ge3"},
-    "F-C04b": {"kind": "rs", "h": 203, "w": 203, "scale": [3, 10], "pts": [(180.0, 100.0)], "sigma": 5.0, "c": 1,
+    # predicted offsets 1.21 / 1.18 px: clear of the ±0.15 knife band around 1 px
+    "F-C04b": {"kind": "rs", "h": 403, "w": 403, "scale": [3, 10], "pts": [(375.0, 200.0)], "sigma": 5.0, "c": 1,
                "decimal": True, "region": "trunc"},
 }
+KNOWN_WITNESSES["F-C04c"] = {   # 160×1600, zoom 2.5, 20°: predicted / measured offset ≈ 1.2 px
+    "kind": "aug", "mode": "geo", "h": 160, "w": 1600, "c": 1, "sigma": 1.6, "seed": 1, "pts": [(1050.1875, 15.5)],
+    "params": {"rotation": [20.0, 20.0], "scale": [2.5, 2.5], "translate_width": 0.0, "translate_height": 0.0, "affine_p": 1.0},
+    "nan_last": False, "region": "warp"}
+KNOWN_WITNESSES["F-C04d"] = {
+    "kind": "ds", "cls": "Centroid", "region": "stale", "decimal": False, "rgb": False, "anchor": 0, "seed": 5, "stride": 16,
+    "scale": [1, 1], "max_hw": [None, None], "np_chunks": False, "reads": [0, 0],
+    "frames": [{"h": 96, "w": 96, "c": 1, "sigma": 1.7, "insts": [[(30.0, 40.0), (60.0, 62.0)]]}],
+    "geometric": {"rotation": [30.0, 30.0], "scale": None, "translate_width": 0.0, "translate_height": 0.0, "affine_p": 1.0}}
 KNOWN_WITNESSES_EXTRA = {   # second witness of F-C04b: the size matcher's rounded target (factor 2.5 < 3)
-    "F-C04b": {"kind": "sm", "h": 20, "w": 23, "mh": 50, "mw": 100, "pts": [(18.0, 10.0)], "sigma": 1.6, "c": 1, "region": "round"},
+    "F-C04b": {"kind": "sm", "h": 20, "w": 43, "mh": 58, "mw": 200, "pts": [(32.0, 10.0)], "sigma": 1.6, "c": 1, "region": "round"},
 }
 
 
@@ -1304,7 +1536,7 @@ def tag_of(c):
         if c.get("intensity"):
             t += ":int"
         if c.get("np_chunks"):
-            t += ":npz"
+            t += ":npz" + ("-existing" if c.get("existing") else "")
         return t
     if c["kind"] == "aug":
         return "aug:" + c["mode"]
@@ -1323,6 +1555,10 @@ def _debug(chk):
 
 def main(chk: Check):
     global torch
+    # one C04 run at a time: regenerate + build + driver runs must see one consistent generated file
+    import fcntl
+    chk._c04_lock = open(LEAN / ".verif-C04-run.lock", "w")
+    fcntl.flock(chk._c04_lock, fcntl.LOCK_EX)
     ok, msg = py2lean_c04.regenerate(REPO, LEAN)
     chk.extra["translator"] = msg
     if not ok:
@@ -1339,6 +1575,7 @@ def main(chk: Check):
     import torch as _t
     torch = _t
     Rec.install()
+    fill_oc_table()
     rng = chk.rng
     torch.manual_seed(rng.randrange(2 ** 31))
     np.random.seed(rng.randrange(2 ** 31))
@@ -1353,7 +1590,7 @@ def main(chk: Check):
             chk.disagreements += sub.disagreements
         try:
             n0 = len(chk.known_lines)
-            chk.known_replay(fid, still, detail=f"witness {w['kind']} {w['h']}x{w['w']}")
+            chk.known_replay(fid, still, detail=f"witness {w['kind']} {w.get('cls', '')}")
             if len(chk.known_lines) > n0 and chk.known_lines[-1] in chk.known_lines[:-1]:
                 chk.known_lines.pop()
         except RuntimeError as e:
@@ -1379,6 +1616,7 @@ def main(chk: Check):
     add(gen_rs, chk.n(100, 800), "main")
     add(gen_crop, chk.n(60, 600))
     add(gen_cropsize, chk.n(80, 800))
+    add(gen_pipe, chk.n(20, 200))
     add(gen_aug, chk.n(30, 300), "int")
     add(gen_aug, chk.n(80, 600), "geo")
     for cls in ("BottomUp", "Single", "Centroid", "Centered"):
@@ -1403,8 +1641,16 @@ def main(chk: Check):
     chk.extra["keypoint_tolerance_px"] = TOL_KP
 
 
+def fill_oc_table():
+    cs = list(range(1, 161))
+    outs = run_driver("C04.lean", [f"oc {v}" for v in cs])
+    for v, o in zip(cs, outs):
+        OC_TABLE[v] = int(o.split()[1])
+
+
 def fid_sig(fid):
-    return {"F-C04": "upscale_ge_3", "F-C04b": "target_size_rounding"}[fid]
+    return {"F-C04": "upscale_ge_3", "F-C04b": "target_size_rounding", "F-C04c": "affine_warp_nonsquare",
+            "F-C04d": "unaugmented_key"}[fid]
 
 
 def normalise(c):
@@ -1415,6 +1661,10 @@ def normalise(c):
     if "frames" in c and c["kind"] == "ds":
         for fr in c["frames"]:
             fr["insts"] = [[tuple(p) for p in inst] for inst in fr["insts"]]
+    if c.get("kind") == "pipe":
+        c["insts"] = [[tuple(p) for p in inst] for inst in c["insts"]]
+        if c.get("geo") and c["geo"].get("scale") is not None:
+            c["geo"]["scale"] = tuple(c["geo"]["scale"])
     if "frames" in c and c["kind"] == "cropsize":
         c["frames"] = [[[tuple(p) for p in inst] for inst in fr] for fr in c["frames"]]
     return c
@@ -1426,6 +1676,7 @@ def replay(chk: Check, payload):
     import torch as _t
     torch = _t
     Rec.install()
+    fill_oc_table()
     case = payload.get("case") or payload["disagreements"][0]["case"]
     case = normalise({k: v for k, v in case.items() if k not in ("point", "sample", "read_no")})
     print("replay", {k: v for k, v in case.items() if k != "frames"})
